@@ -85,6 +85,12 @@ func NewDirective(config DirectiveConfig) *Directive {
 		if dir.err = assertValidName(argName); dir.err != nil {
 			return dir
 		}
+		if dir.err = invariantf(
+			argConfig != nil && IsInputType(argConfig.Type),
+			`@%v(%v:) argument type must be Input Type but got: %v.`, config.Name, argName, argConfig,
+		); dir.err != nil {
+			return dir
+		}
 		args = append(args, &Argument{
 			PrivateName:        argName,
 			PrivateDescription: argConfig.Description,
